@@ -122,11 +122,48 @@ NEEDS = {
            "an SK cache miss whose caller's context is cancelled by the time the KMS call returns"),
  "C10-D": ("aws-v2 encryptAllRegions gives each region a private copy of the data key that is never wiped",
            "aws-v2 plugin with >= 2 regions creating or rotating a system key"),
+
+ "C11-C": ("protectedmemory release() re-protects (PROT_NONE) as soon as a Close is pending, although another reader is still inside",
+           ">= 2 overlapping readers, a Close issued while both are in flight, one reader returns, the other then reads"),
+ "C11-D": ("memguard release() uses cond.Signal instead of Broadcast: only one of several waiting closers is woken",
+           "an in-flight reader and >= 2 concurrent Close calls parked waiting for it"),
+ "C12-C": ("protectedmemory: a failed Close resets closing=false although the bytes were already wiped: later reads succeed and return zeros",
+           "a fault at the Unlock or Free inside Close followed by a read on the same secret"),
+ "C12-D": ("memguard release(): Broadcast only after a successful Protect(NoAccess): a waiting Close is never woken when that protect fails",
+           "a reader inside, a concurrent Close waiting on the cond, and a fault on the Protect(NoAccess) of the last reader leaving"),
+ "C13-C": ("aws-v1 DynamoDB LoadLatest uses ConsistentRead only when the region suffix is off",
+           "WithDynamoDBRegionSuffix(true), an eventually consistent backend, and a LoadLatest right after a completed Store"),
+ "C13-D": ("SQL Store returns (true, nil) when the INSERT failed, the context is done and the row exists",
+           "a duplicate (id, created) together with a cancelled / expired context on the losing Store"),
+ "C15-C": ("expired entries are removed by Get without the eviction callback",
+           "a cache built WithExpiry, an entry older than the expiry and a Get of exactly that key"),
+ "C15-D": ("TinyLFU Victim: the candidate that wins the admission duel keeps the window LRU as its recorded segment (assignment to a map-value copy)",
+           "TinyLFU with capacity >= 100, a full cache whose window entry was read more often than the main segment's oldest entry when a new key is Set, later removal of that entry"),
+ "C16-C": ("slru demotion leaves the protected flag set: the same session's evict callback fires repeatedly, real entries are never released",
+           "session cache with slru (default) or tinylfu, > 80% of capacity hit again while in probation (capacity 1: get the same id twice), then evictions / Close"),
+ "C16-D": ("cacheWrapper.Get runs the loader outside the lock and Sets without a second lookup: two concurrent first-time callers get different sessions, one is overwritten and never released",
+           ">= 2 goroutines missing on the same uncached partition at the same time"),
+ "C17-C": ("aws-v1 DecryptKey breaks out of the region loop at the first configured region without an envelope entry",
+           "an envelope missing the entry of a region that sits before a usable one in client order"),
+ "C17-D": ("aws-v2 encryptAllRegions builds 'remaining' with append over a.clients: the instance's client list is corrupted after the first multi-region wrap",
+           "a long-lived multi-region instance: an EncryptKey followed by another EncryptKey or a DecryptKey"),
+ "C18-C": ("suffixedPartition builds ids with fmt.Sprintf(unsuffixedID + \"_%s\", suffix): caller data becomes the format string",
+           "a region-suffixing metastore and a '%' in the partition id, service or product"),
+ "C18-D": ("tryStoreSystemKey stamps the SK row with newKeyTimestamp() instead of sk.Created()",
+           "an SK creation whose KMS.EncryptKey call crosses a CreateDatePrecision boundary, and a reader that does not share the writer's caches"),
+ "C19-C": ("defaultHandler.GetSession assigns the (nil *Session, err) result straight into the session interface: typed nil defeats the nil guards",
+           "a rejected get-session followed by encrypt, decrypt or end of stream"),
+ "C19-D": ("NewAppEncryption builds the SDK factory lazily with broken double-checked locking: racing first get-sessions build separate factories (separate memory metastores)",
+           ">= 2 truly parallel first get-sessions right after server start"),
+ "C20-C": ("GetOrLoad skips the re-check under the write lock when the first lookup found the entry stale: every waiting caller reloads",
+           "the interval has elapsed and >= 2 goroutines pass the read-locked lookup before the first takes the write lock"),
+ "C20-D": ("newIKCache builds a real key cache when CacheSessions is on although CacheIntermediateKeys is off",
+           "session cache on together with intermediate-key caching off, then repeated operations"),
 }
 ALSO = {  # additional checks worth running per seed (own property's check always runs)
  "C01-B": ["C14", "C03"], "C02-A": ["C14", "C01"], "C03-A": ["C01", "C14"], "C05-B": ["C01"], "C08-A": ["C16"], "C09-B": ["C08"], "C13-A": ["C18"],
  "C14-A": ["C01", "C02"], "C16-A": ["C08"], "C16-B": ["C15", "C09"], "C18-A": ["C13"], "C18-B": ["C07"], "C07-B": ["C18"], "C01-A": ["C04", "C09"], "C02-B": ["C09"],
- "C10-A": ["C07"], "C07-C": ["C08"], "C01-C": ["C16", "C08"], "C03-D": ["C06", "C18"], "C09-C": ["C15"], "C09-D": ["C16"], "C03-C": ["C01"], "C15-A": ["C16"], "C20-A": ["C05"], "C12-B": ["C11"], "C11-B": ["C12"],
+ "C10-A": ["C07"], "C16-C": ["C15", "C09"], "C15-C": ["C16"], "C18-D": ["C02"], "C18-C": ["C06"], "C20-C": ["C08"], "C16-D": ["C08"], "C11-D": ["C12"], "C07-C": ["C08"], "C01-C": ["C16", "C08"], "C03-D": ["C06", "C18"], "C09-C": ["C15"], "C09-D": ["C16"], "C03-C": ["C01"], "C15-A": ["C16"], "C20-A": ["C05"], "C12-B": ["C11"], "C11-B": ["C12"],
 }
 def sh(cmd, **kw):
     return subprocess.run(cmd, shell=True, stdout=subprocess.PIPE, stderr=subprocess.STDOUT, text=True, **kw)
